@@ -28,6 +28,14 @@ DOCS = [b"hello <b>bold</b> &amp; <i>it</i><br/>",
         b"<a href='mailto:a@b.c'>m</a><a href=\"data:text/html,x\">d</a><a href='//h/p'>r</a><a href=\"1x:80/p\">q</a>",
         b"\xd7\xa9\xd7\x9c\xd7\x95\xd7\x9d \xff <b>\x04</b> \xc0\xbc <i>\xe2\x82\xac</i>",
         b"<b>\xd8\x3d\xde\x00</b>\xdc\x00<i>\x80\x01</i>x\x81"]
+# numeric character references: literal big values, and (flag bit 7 = STRUCT) the 0x1D expansion of harness/c04_fuzz.cpp:
+# 0x1D form zeros value-class cp-selector aux
+STRUCT = 0x80
+NUM_DOCS = [b"a<b>&#x10000003C;</b>&#4294967361; &#18446744073709551681; &#x0000000000000041; &#000065; &#X110000; &#1114112;<x>",
+            b"<p title=\"&#x10000003C;\">&#2147483713;</p>&#9223372036854775873;&#x7fffffff;&#xFFFFFFFF;&#4294967295;&#4294967296;",
+            b"<b>\x1d\x00\x00\x01\x00\x00</b>\x1d\x01\x07\x04\x01\x05 \x1d\x02\x09\x0f\x03\x21<i>\x1d\x00\x04\x05\x04\x07</i>\x1d\x03\x00\x0e\x00\x04<x>",
+            b"<p title='\x1d\x01\x00\x01\x02\x00'>\x1d\x00\x08\x03\x00\x09</p>\x1d\x05\x0a\x10\x00\x11\x1d\x02\x01\x07\x01\x00\x1d\x00\x00\x06\x00\x00"]
+NUM_CFGS = [cfg(XHTML | NUMERIC | STRUCT), cfg(NUMERIC | ESCAPE | STRUCT), cfg(XHTML | ESCAPE | NUMERIC | COMMENTS | STRUCT, enc=1), cfg(STRUCT), cfg(NUMERIC | STRUCT, enc=8)]
 out = os.path.join(os.path.dirname(os.path.abspath(__file__)), "seeds")
 os.makedirs(out, exist_ok=True)
 for f in os.listdir(out):
@@ -39,5 +47,9 @@ for i, c in enumerate(CFGS):
             continue
         data = c + d
         open(os.path.join(out, "s%02d_%02d" % (i, j)), "wb").write(data)
+        n += 1
+for i, c in enumerate(NUM_CFGS):
+    for j, d in enumerate(NUM_DOCS):
+        open(os.path.join(out, "n%02d_%02d" % (i, j)), "wb").write(c + d)
         n += 1
 print(n, "seeds")
